@@ -7,15 +7,14 @@
 package main
 
 import (
-	"bytes"
 	"flag"
 	"fmt"
 	"go/ast"
 	"go/parser"
-	"go/printer"
 	"go/token"
 	"os"
 	"path/filepath"
+	"sort"
 	"strings"
 )
 
@@ -26,12 +25,120 @@ func die(format string, a ...any) {
 	os.Exit(1)
 }
 
+// render: the node in the normal form of astnorm_gen.go. Function-local identifiers are printed under
+// canonical names v<k>, EXCEPT those that alias() has given a role name: the tables below speak of
+// `query`, `operator`, `start`, `end`, `inclusive`, `queryKey` … — these names are attached to the
+// variables by their position / declaration (see roles), not by how the source spells them.
 func render(n ast.Node) string {
-	var b bytes.Buffer
-	if err := printer.Fprint(&b, fset, n); err != nil {
-		die("print: %v", err)
+	return CanonPrint(fset, n)
+}
+
+func alias(id *ast.Ident, name string) {
+	if id != nil && id.Obj != nil {
+		astnormCanon[id.Obj] = name
 	}
-	return strings.Join(strings.Fields(b.String()), " ")
+}
+
+func recvIdent(fd *ast.FuncDecl) *ast.Ident {
+	if fd.Recv != nil && len(fd.Recv.List) == 1 && len(fd.Recv.List[0].Names) == 1 {
+		return fd.Recv.List[0].Names[0]
+	}
+	return nil
+}
+
+func fieldIdents(fl *ast.FieldList) []*ast.Ident {
+	var out []*ast.Ident
+	if fl != nil {
+		for _, f := range fl.List {
+			out = append(out, f.Names...)
+		}
+	}
+	return out
+}
+
+// isCallOf: e is `name(arg…)` / `x.name(arg…)`, first argument the variable obj (nil: any)
+func isCallOf(e ast.Expr, name string, obj *ast.Object) bool {
+	c, ok := e.(*ast.CallExpr)
+	if !ok || len(c.Args) < 1 {
+		return false
+	}
+	fn := ""
+	switch f := c.Fun.(type) {
+	case *ast.Ident:
+		fn = f.Name
+	case *ast.SelectorExpr:
+		fn = f.Sel.Name
+	}
+	if fn != name {
+		return false
+	}
+	if obj == nil {
+		return true
+	}
+	a, ok := c.Args[0].(*ast.Ident)
+	return ok && a.Obj == obj
+}
+
+// rolesSearch: names of the variables of IndexInverted.Search by role
+func rolesSearch(fd *ast.FuncDecl) {
+	alias(recvIdent(fd), "inv")
+	ps := fieldIdents(fd.Type.Params)
+	if len(ps) != 3 {
+		die("IndexInverted.Search: expected the parameters (query, endQuery, operator)")
+	}
+	alias(ps[0], "query")
+	alias(ps[1], "endQuery")
+	alias(ps[2], "operator")
+	ast.Inspect(fd.Body, func(n ast.Node) bool {
+		switch x := n.(type) {
+		case *ast.ValueSpec: // var start, end []byte ; var inclusive bool
+			if at, ok := x.Type.(*ast.ArrayType); ok && at.Len == nil && len(x.Names) == 2 && len(x.Values) == 0 {
+				if el, ok := at.Elt.(*ast.Ident); ok && el.Name == "byte" {
+					alias(x.Names[0], "start")
+					alias(x.Names[1], "end")
+				}
+			}
+			if t, ok := x.Type.(*ast.Ident); ok && t.Name == "bool" && len(x.Names) == 1 && len(x.Values) == 0 {
+				alias(x.Names[0], "inclusive")
+			}
+		case *ast.AssignStmt: // queryKey, err := toByteSortable(query) ; endk, err := toByteSortable(endQuery)
+			if x.Tok == token.DEFINE && len(x.Lhs) == 2 && len(x.Rhs) == 1 {
+				if id, ok := x.Lhs[0].(*ast.Ident); ok {
+					if isCallOf(x.Rhs[0], "toByteSortable", ps[0].Obj) {
+						alias(id, "queryKey")
+					}
+					if isCallOf(x.Rhs[0], "toByteSortable", ps[1].Obj) {
+						alias(id, "endk")
+					}
+				}
+			}
+		case *ast.FuncLit: // scan callbacks func(k, v []byte) error
+			if fs := fieldIdents(x.Type.Params); len(fs) == 2 {
+				alias(fs[0], "k")
+				alias(fs[1], "v")
+			}
+		}
+		return true
+	})
+}
+
+// rolesArms: receiver `inv`, first parameter `change`; named results of getOperation by position
+func rolesArms(fd *ast.FuncDecl) {
+	alias(recvIdent(fd), "inv")
+	if fd.Name.Name == "processChange" {
+		if ps := fieldIdents(fd.Type.Params); len(ps) == 1 {
+			alias(ps[0], "change")
+		}
+	}
+	if fd.Name.Name == "getOperation" {
+		rs := fieldIdents(fd.Type.Results)
+		if len(rs) != 4 {
+			die("getOperation: expected the named results (prevProp, currentProp, op, err)")
+		}
+		alias(rs[0], "prevProp")
+		alias(rs[1], "currentProp")
+		alias(rs[2], "op")
+	}
 }
 
 func parse(repo, rel string) *ast.File {
@@ -39,6 +146,7 @@ func parse(repo, rel string) *ast.File {
 	if err != nil {
 		die("%v", err)
 	}
+	NormalizeFile(fset, f, AllNorm) // behaviour-preserving normal form, see astnorm_gen.go
 	return f
 }
 
@@ -86,13 +194,14 @@ func leanList(xs []string) string {
 // the `switch operator` of IndexInverted.Search: per operator, how the bucket is read
 func searchTable(f *ast.File) []string {
 	fd := method(f, "IndexInverted", "Search")
+	rolesSearch(fd)
 	var sw *ast.SwitchStmt
 	var scanCall string
 	ast.Inspect(fd.Body, func(n ast.Node) bool {
 		if s, ok := n.(*ast.SwitchStmt); ok && s.Tag != nil && render(s.Tag) == "operator" {
 			sw = s
 		}
-		if ifs, ok := n.(*ast.IfStmt); ok && render(ifs.Cond) == "start != nil || end != nil" {
+		if ifs, ok := n.(*ast.IfStmt); ok && (render(ifs.Cond) == "start != nil || end != nil" || render(ifs.Cond) == "end != nil || start != nil") {
 			ast.Inspect(ifs.Body, func(m ast.Node) bool {
 				if c, ok := m.(*ast.CallExpr); ok && strings.HasPrefix(render(c.Fun), "inv.bucket.RangeScan") && len(c.Args) == 4 {
 					scanCall = render(c.Args[0]) + "," + render(c.Args[1]) + "," + render(c.Args[2])
@@ -155,11 +264,15 @@ func searchTable(f *ast.File) []string {
 			rows = append(rows, render(e)+": "+strings.Join(how, "; "))
 		}
 	}
+	// the cases of a switch over one tag with distinct constant labels exclude each other: their order in
+	// the source carries no meaning, the table is emitted sorted by label
+	sort.Strings(rows)
 	return rows
 }
 
 // conditions of the case clauses of a tagless switch, with the op each assigns (if any)
 func switchArms(fd *ast.FuncDecl, what string) []string {
+	rolesArms(fd)
 	var sw *ast.SwitchStmt
 	ast.Inspect(fd.Body, func(n ast.Node) bool {
 		if s, ok := n.(*ast.SwitchStmt); ok && s.Tag == nil && sw == nil {
@@ -204,6 +317,7 @@ func switchArms(fd *ast.FuncDecl, what string) []string {
 
 // what a wrapper of string.go lower-cases, and what it hands to the inner index
 func folds(fd *ast.FuncDecl, what string) (folded []string, guard string, call string) {
+	alias(recvIdent(fd), "inv")
 	ast.Inspect(fd.Body, func(n ast.Node) bool {
 		switch n := n.(type) {
 		case *ast.IfStmt:
@@ -257,7 +371,10 @@ func main() {
 	wr("searchTable", "inverted.go IndexInverted.Search: operator -> how the bucket is read (the range operators feed `RangeScan(start, end, inclusive)`)", searchTable(inv))
 	wr("processChangeArms", "inverted.go processChange: the arms in order", switchArms(method(inv, "IndexInverted", "processChange"), "processChange"))
 	wr("getOperationArms", "utils.go getOperation: the arms in order", switchArms(method(utl, "", "getOperation"), "getOperation"))
-	for _, w := range []struct{ name, recv, fn string; f *ast.File }{
+	for _, w := range []struct {
+		name, recv, fn string
+		f              *ast.File
+	}{
 		{"stringSearch", "IndexInvertedString", "Search", str},
 		{"stringWrite", "IndexInvertedString", "InsertUpdateDelete", str},
 		{"stringArraySearch", "IndexInvertedArrayString", "Search", str},
@@ -268,6 +385,7 @@ func main() {
 	}
 	// array.go: the operators of IndexInvertedArray.Search and the per-element lookup
 	var arrRows []string
+	alias(recvIdent(method(arr, "IndexInvertedArray", "Search")), "inv")
 	ast.Inspect(method(arr, "IndexInvertedArray", "Search").Body, func(n ast.Node) bool {
 		switch n := n.(type) {
 		case *ast.CaseClause:
